@@ -116,7 +116,7 @@ func H_C08_postpatch() {
 	}
 	symx.Assume(k1 != k2)
 	flagSeed = seedFlag{bytes: []byte("12345678")}
-	lpkg := &listedPackage{ImportPath: "main"}
+	lpkg := &listedPackage{ImportPath: "main", ToObfuscate: true} // the harness names the table variable the way an obfuscated main package does; the agreement with the build in both cases is H_C08_name_table_installed's subject
 	obfVar := hashWithPackage(lpkg, "_originalNamePairs")
 	file := []byte("package main\nvar " + obfVar + " = []string{}\n")
 	out := reflectMainPostPatch(file, lpkg, pkgCache{ReflectObjectNames: map[string]string{k1: v1, k2: v2}})
